@@ -533,6 +533,112 @@ pub fn run(ctx: &Ctx) {
             }
         },
     );
+
+    // (h) long numeric bodies (size thresholds of the digit accumulation): every number of leading
+    // zeros 0..=Z in front of every significant-digit string of the pool, in both radices, alone and
+    // embedded. The pool has the boundary values and, for every k, 1·0^k·41 (the values that come out
+    // as 'A' when high digits are dropped) and the values that wrap to 'A' modulo 2^8..2^128.
+    let zmax = ctx.tier.pick(40u64, 130);
+    let mut pool: Vec<String> = ["1", "9", "41", "65", "a", "A", "7f", "80", "ff", "100", "d7ff", "D800", "dfff", "e000", "fffd", "ffff", "10000", "10ffff", "10FFFF", "110000", "1114111", "1114112", "7fffffff", "80000000", "ffffffff", "100000000", "4294967295", "4294967296", "ffffffffffffffff", "10000000000000000", "18446744073709551615", "18446744073709551616"]
+        .iter()
+        .map(|s| s.to_string())
+        .collect();
+    for k in 0..=zmax as usize {
+        pool.push(format!("1{}41", "0".repeat(k)));
+        pool.push(format!("1{}65", "0".repeat(k)));
+        pool.push("9".repeat(k + 1));
+        pool.push("f".repeat(k + 1));
+    }
+    for bits in [8u32, 16, 31, 32, 63, 64, 127] {
+        let w: u128 = (1u128 << bits) + 65;
+        pool.push(format!("{}", w));
+        pool.push(format!("{:x}", w));
+        if bits < 126 { pool.push(format!("{}", (1u128 << bits) * 3 + 0x10FFFF)); }
+    }
+    pool.push(format!("{}", u128::MAX));
+    pool.push(format!("{:x}", u128::MAX));
+    pool.push("340282366920938463463374607431768211521".into()); // 2^128 + 65
+    pool.push("100000000000000000000000000000041".into()); // 16^32 + 0x41
+    let np = pool.len() as u64;
+    ctx.layer(
+        "long_numeric",
+        7,
+        np * (zmax + 1) * 2,
+        json!({"significant_digit_strings": np, "leading_zeros": format!("0..={}", zmax), "radices": ["#", "#x"], "embedding": ["alone", "a<ref>b<ref>"]}),
+        |i, acc| {
+            let radix = i % 2;
+            let z = (i / 2) % (zmax + 1);
+            let d = &pool[(i / 2 / (zmax + 1)) as usize];
+            let r = format!("&#{}{}{};", if radix == 1 { "x" } else { "" }, "0".repeat(z as usize), d);
+            for s in [r.clone(), format!("a{}b{}", r, r)] {
+                acc.evaluations += 1;
+                acc.transitions += 8;
+                acc.traces += 1;
+                if let Err(what) = check_string(&s, Some(acc)) {
+                    acc.violation((7, i), what, json!({"kind": "string", "s": s}));
+                }
+            }
+            if i % 101 == 0 {
+                acc.sample(seed, i ^ 0x9999, || json!({"kind":"string","s": r}));
+            }
+        },
+    );
+
+    // (i) alignment (size thresholds of the scanners): one or two special items at every position of
+    // a string of every length up to the bound, for several fillers (bytes below and above every
+    // special character, multi-byte, blank, NUL)
+    let fillers: [&str; 7] = ["a", "z", "0", "\u{e9}", " ", "\u{0}", "?"];
+    let items: [&str; 12] = ["&", "<", ">", "'", "\"", "&lt;", "&gt;", "&amp;", "&#60;", "&#x3E;", "&apos;", ";"];
+    let n1 = ctx.tier.pick(72u64, 300);
+    let n2 = ctx.tier.pick(34u64, 72);
+    let ni = items.len() as u64;
+    let nfl = fillers.len() as u64;
+    ctx.layer(
+        "alignment.single",
+        8,
+        nfl * ni * (n1 + 1) * (n1 + 1),
+        json!({"fillers": fillers, "items": items, "shape": "filler^p . item . filler^q, all p,q <= bound", "bound": n1}),
+        |i0, acc| {
+            let mut i = i0;
+            let q = i % (n1 + 1);
+            i /= n1 + 1;
+            let p = i % (n1 + 1);
+            i /= n1 + 1;
+            let it = items[(i % ni) as usize];
+            let f = fillers[(i / ni) as usize];
+            let s = format!("{}{}{}", f.repeat(p as usize), it, f.repeat(q as usize));
+            acc.evaluations += 1;
+            acc.transitions += 8;
+            acc.traces += 1;
+            if let Err(what) = check_string(&s, Some(acc)) {
+                acc.violation((8, i0), what, json!({"kind": "string", "s": s}));
+            }
+        },
+    );
+    ctx.layer(
+        "alignment.pair",
+        9,
+        3 * ni * ni * (n2 + 1) * (n2 + 1),
+        json!({"fillers": &fillers[..3], "items": items, "shape": "filler^p . item1 . filler^q . item2 . filler^3, all p,q <= bound", "bound": n2}),
+        |i0, acc| {
+            let mut i = i0;
+            let q = i % (n2 + 1);
+            i /= n2 + 1;
+            let p = i % (n2 + 1);
+            i /= n2 + 1;
+            let i2 = items[(i % ni) as usize];
+            i /= ni;
+            let i1 = items[(i % ni) as usize];
+            let f = fillers[(i / ni) as usize];
+            let s = format!("{}{}{}{}{}", f.repeat(p as usize), i1, f.repeat(q as usize), i2, f.repeat(3));
+            acc.evaluations += 1;
+            acc.transitions += 8;
+            acc.traces += 1;
+            if let Err(what) = check_string(&s, Some(acc)) {
+                acc.violation((9, i0), what, json!({"kind": "string", "s": s}));
+            }
+        },
+    );
 }
 
 pub fn replay(case: &Value) -> Result<(), String> {
